@@ -13,10 +13,13 @@ from harness.framework import Suite
 
 PID = "C01"
 TRANSLATE = True
-LEAN_MODS = ["SwcVerif.Props.C01"]
+TRANSLATE_ALGO = ["AlgoWriter"]   # Gen/AlgoWriter.lean is regenerated on every run from io.py::to_swc (+ its closure get_v) and swc.py::SWCLike.to_swc
+DRIVER_FILES = ["SwcVerif/Model/AlgoRunWriter.lean"]
+LEAN_MODS = ["SwcVerif.Props.C01", "SwcVerif.Props.C01Gen"]
 THEOREMS = [
     "C01.writer_consts_pinned", "C01.digits_parse", "C01.fmt4_parse", "C01.row_roundtrip", "C01.comment_roundtrip", "C01.comment_text_same",
     "C01.header_dropped", "C01.written_lines_are_lines", "C01.table_roundtrip", "C01.comments_roundtrip", "C01.reset_restores",
+    # the writer as TRANSLATED from the source on every run (Gen/AlgoWriter.lean)
 ]
 TRUSTED = ["hand-written writer/reader text models (Model/SwcText.lean) tied by the c01.roundtrip correspondence; constants pinned via Gen/Consts.lean"]
 ASSUMPTIONS = ["CPython float formatting f'{v:.4f}' (correct rounding of the binary value) and float() parsing; float32 storage after reading",
@@ -554,8 +557,51 @@ class RoundTrip(Suite):
                     return False
             return m["comments"] == h["comments"]
 
-        return [(w, st.cps(text)),
+        # the GENERATED writer (Gen/AlgoWriter.lean: SWCLike.to_swc -> io.to_swc -> get_v) on the same table; it decides the source header itself
+        srcg = "true" if src is True else "false" if src is False else st.cps(src)
+        gw = (f"gswcwrite off={case['offset']} src={srcg} attr={st.cps(res['source_text'] or '')} wc={int(case['with_comments'])} " + w.split(" wc=", 1)[1].split(" ", 1)[1])
+        return [(w, st.cps(text)), (gw, st.cps(text))] + self.io_lines(case, cols) + [
                 (f"swcread nx=0 reset=1 cp={st.cps(text)}", st.Expect(back, "Tree.from_swc(text) = " + repr({k: h[k] for k in ('id', 'pid', 'type', 'x', 'comments')})[:1200]))]
+
+    def io_lines(self, case, cols):
+        """the generated `io.to_swc` against the real one on tables whose id column is NOT the row positions (the writer indexes every column
+        with the VALUE of the id: a permutation reorders the rows, a negative id wraps, an id out of range is an IndexError), with negative
+        offsets and with `comments` absent / given"""
+        import random
+
+        from harness import swctext as st
+        from swcgeom.core.swc_utils import io as swcio
+
+        t = case["tree"]
+        n = t["n"]
+        if n > 40:
+            return []
+        rng = random.Random(n * 7919 + case["offset"] % 1000 + len(case["comments"]))
+        how = rng.choice(["reversed", "shuffled", "negative", "out-of-range", "repeated", "positions"])
+        ids = list(range(n))
+        if how == "reversed":
+            ids.reverse()
+        elif how == "shuffled":
+            rng.shuffle(ids)
+        elif how == "negative":
+            ids = [i - n if rng.random() < 0.6 else i for i in ids]
+        elif how == "out-of-range":
+            ids[rng.randrange(n)] = rng.choice([n, n + 3, -n - 1])
+        elif how == "repeated":
+            ids = [rng.randrange(n) for _ in ids]
+        off = rng.choice([0, 1, -1, -5, 12, 1000])
+        cm = None if rng.random() < 0.3 else list(case["comments"])
+        data = {"id": np.array(ids, dtype=np.int32), "type": np.array(t["types"], dtype=np.int32), "pid": np.array(t["pids"], dtype=np.int32),
+                "x": cols[0], "y": cols[1], "z": cols[2], "r": cols[3]}
+        try:
+            want = st.cps("".join(swcio.to_swc(lambda k: data[k], comments=cm, id_offset=off)))
+        except IndexError:
+            want = "E"
+        nz = [4 * k + c for k in range(n) for c in range(4) if st.neg_zero(cols[c][k])]
+        cmarg = "absent" if cm is None else (";".join(st.cps(c) for c in cm) if cm else "none")
+        line = (f"gioswc off={off} c={cmarg} ids={gen.ints(ids)} types={gen.ints(t['types'])} pids={gen.ints(t['pids'])} "
+                + " ".join(f"{nm}={gen.ints([st.q4(v) for v in col])}" for nm, col in zip("xyzr", cols)) + f" nz={gen.ints(nz)}")
+        return [(line, want)]
 
     def oracle(self, case, res):
         try:
